@@ -12,6 +12,13 @@ F13_SIG = 'eof-callback-lost:close-overtakes-pending-eof'
 F2_SIG = 'send-loop-spins:max-packet-size-0'
 F3_SIG = 'window-exceeded-while-paused'
 EOF_UNSENT_SIG = 'eof-not-sent:close-overrides-pending-eof'
+# audit findings D1..D5 (one signature per root cause)
+D1_SIG = 'text-decoder-shared-across-datatypes'
+D2_SIG = 'pause-not-honoured:second-session-request'
+D2_STREAM_SIG = 'stream-split-between-handlers:second-session-request'
+D3_SIG = 'protocol-error-after-local-close:partial-character'
+D4_SIG = 'tunnel-stalled:stripped-header-not-returned-to-window'
+D5_SIG = 'tunnel-packet-cut-at-window-edge'
 
 
 def _zero_pktsize(case: Dict[str, Any]) -> bool:
@@ -50,9 +57,27 @@ def delivered(events: List[Tuple[Any, ...]]) -> Tuple[List[Tuple[Optional[int], 
 
 def expected_units(writes: List[Tuple[Optional[int], bytes]], text: bool) -> Optional[List[Tuple[Any, Optional[int]]]]:
     """what the receiving application must see, as a stream of units (bytes, or characters on a text channel)
-    each tagged with its datatype; None if the written bytes are not valid UTF-8 (a text receiver then fails)"""
+    each tagged with its datatype; None if the bytes written with some data type are not valid UTF-8 (a text
+    receiver then fails).  Each data type is a text of its own ("for each data type, the receiving application sees
+    exactly the character sequence the sending application wrote"): a character counts as delivered with the
+    write that completes it IN ITS data type, whatever was written on other data types in between."""
     if not text:
         return tagged(writes)
+    import codecs
+    decs: Dict[Optional[int], Any] = {}
+    out: List[Tuple[Any, Optional[int]]] = []
+    for dt, data in writes:
+        dec = decs.setdefault(dt, codecs.getincrementaldecoder('utf-8')('strict'))
+        try:
+            out += [(ch, dt) for ch in dec.decode(data)]
+        except UnicodeDecodeError:
+            return None
+    return out
+
+
+def shared_units(writes: List[Tuple[Optional[int], bytes]]) -> Optional[List[Tuple[Any, Optional[int]]]]:
+    """what ONE decoder shared by all data types makes of the writes (None = it raises): the behaviour of a channel
+    before each data type had its own decoder — used only to NAME that root cause in a failure"""
     import codecs
     dec = codecs.getincrementaldecoder('utf-8')('strict')
     out: List[Tuple[Any, Optional[int]]] = []
@@ -62,6 +87,105 @@ def expected_units(writes: List[Tuple[Optional[int], bytes]], text: bool) -> Opt
         except UnicodeDecodeError:
             return None
     return out
+
+
+def sender_finished(case: Dict[str, Any], res: Dict[str, Any], x: str, i: int) -> bool:
+    """side x ended its stream on channel i: its application called write_eof() / close(), or the channel did on its
+    behalf (eof_received() returned False) — an EOF or CLOSE of x for that channel is on the wire"""
+    if any(op[0] == 'app' and op[1] == x and op[2] == i and op[3] in ('eof', 'close') and r.startswith('ok ')
+           for op, r in zip(case['ops'], res['results'])):
+        return True
+    return any(c == i and m in ('E', 'C') for c, m, _k in res.get('wire', {}).get(x, []))
+
+
+def text_written_valid(case: Dict[str, Any], res: Dict[str, Any], x: str, i: int,
+                       writes: List[Tuple[Optional[int], bytes]]) -> bool:
+    """is what side x wrote on channel i valid text for a UTF-8 receiver, per data type?  (a text sender always
+    writes valid text; a bytes sender may not, and may stop in the middle of a character before EOF / CLOSE)"""
+    import codecs
+    per: Dict[Optional[int], bytes] = {}
+    for dt, data in writes:
+        per[dt] = per.get(dt, b'') + data
+    final = sender_finished(case, res, x, i)
+    for data in per.values():
+        try:
+            codecs.getincrementaldecoder('utf-8')('strict').decode(data, final)
+        except UnicodeDecodeError:
+            return False
+    return True
+
+
+def decode_fatal(case: Dict[str, Any], res: Dict[str, Any]) -> List[Failure]:
+    """the connection died of a ProtocolError raised by a text decoder.  Legitimate only if a peer really sent
+    invalid text on some data type; between honest peers writing valid text it is a failure — named after its root
+    cause where the run shows it."""
+    writes = accepted_writes(case, res['results'])
+    log = res.get('log', [])
+    if not log:
+        return []
+    op = log[-1][0]
+    y = 'a' if op[0] == 'burst' else op[1]          # the endpoint whose decoder raised
+    x = 'b' if y == 'a' else 'a'
+    closed = app_closed(case, res['results'])
+    fails: List[Failure] = []
+    suspects = []
+    for i, cfg in enumerate(case['chans']):
+        if not (cfg.get('enc') or cfg.get('decA' if y == 'a' else 'decB')):
+            continue
+        w = writes.get((x, i), [])
+        if not cfg.get('enc') and not text_written_valid(case, res, x, i, w):
+            return []           # the peer did send invalid text: the ProtocolError is the documented answer
+        suspects.append((i, cfg, w))
+    for i, cfg, w in suspects:
+        shown = ', '.join(f'write({data!r}' + (f', datatype={dt})' if dt is not None else ')') for dt, data in w[:6])
+        if closed.get((y, i)):
+            fails.append(Failure(D3_SIG, f'channel {i}: side {x} wrote {shown} (valid text, encoding '
+                                 f'{cfg.get("enc") or "utf-8"}), packets cut by the receiver\'s maximum packet size '
+                                 f'{cfg["p" + y]}; the application at side {y} called close() after a packet that ended '
+                                 f'inside a character; later data was dropped undecoded, and the honest peer\'s '
+                                 f'{"EOF" if op[0] == "deliver" else "next message"} made the final decode raise '
+                                 f'ProtocolError: the whole connection (every channel on it) was closed',
+                                 {'case': case, 'channel': i, 'died_at': op}))
+            return fails
+        if not cfg.get('enc') and len({dt for dt, _d in w}) > 1 and shared_units(w) is None:
+            fails.append(Failure(D1_SIG, f'channel {i}: side {x} (bytes) wrote {shown}: each data type is valid UTF-8, '
+                                 f'but a character of one data type was cut by a write on the other; the text '
+                                 f'receiver at side {y} decodes all data types with ONE incremental decoder and '
+                                 f'raised ProtocolError: the whole connection was closed',
+                                 {'case': case, 'channel': i, 'died_at': op}))
+            return fails
+    if suspects:
+        fails.append(Failure('protocol-error-between-honest-peers:decode',
+                             'the connection was torn down by a decode error although every data type written was '
+                             'valid text', {'case': case, 'died_at': op}))
+    return fails
+
+
+def check_pause(case: Dict[str, Any], res: Dict[str, Any]) -> List[Failure]:
+    """flow control towards the application: between ITS pause_reading() and ITS resume_reading() no data callback"""
+    fails: List[Failure] = []
+    ops = [op for op, _r in res.get('log', [])]
+    for side in 'ab':
+        for i, v in enumerate(res.get('pause_violations', {}).get(side, [])):
+            if not v:
+                continue
+            k = v[0]
+            # a second session request processed on this channel at or before the first violation?
+            req_seen = any(op[0] == 'req' and op[2] == i for op in ops[:k + 1])
+            at = ops[k] if 0 <= k < len(ops) else None
+            if req_seen and side == 'b':
+                line = res['log'][k][1] if 0 <= k < len(res['log']) else ''
+                fails.append(Failure(D2_SIG, f'channel {i}: the server application had called pause_reading() and not '
+                                     f'resume_reading(); the client sent a second "shell" request on the running '
+                                     f'channel; the server answered it with SUCCESS, called session_started() again '
+                                     f'({res.get("sessions_started", {}).get("b", [0] * (i + 1))[i]} times in all) and '
+                                     f'resume_reading(): {len(v)} data_received() calls reached the paused application '
+                                     f'(first in operation {k}: {at} -> {line})', {'case': case, 'channel': i}))
+            else:
+                fails.append(Failure('data-delivered-while-reading-paused', f'channel {i} side {side}: data_received() '
+                                     f'called {len(v)} times between the application\'s pause_reading() and its '
+                                     f'resume_reading() (first in operation {k}: {at})', {'case': case, 'channel': i}))
+    return fails
 
 
 def show_text(t: str) -> str:
@@ -114,6 +238,8 @@ def check_c07(case: Dict[str, Any], res: Dict[str, Any]) -> List[Failure]:
         fails.append(Failure('protocol-error-between-honest-peers:' + str(fatal),
                              f'the connection was torn down ({fatal}) although both peers followed the protocol: '
                              f'data in flight is lost', {'case': case}))
+    if fatal == 'decode' and case.get('profile') != 'hostile':
+        fails += decode_fatal(case, res)
     for i in range(len(case['chans'])):
         for x, y in (('a', 'b'), ('b', 'a')):
             enc = case['chans'][i].get('enc')
@@ -128,6 +254,15 @@ def check_c07(case: Dict[str, Any], res: Dict[str, Any]) -> List[Failure]:
                 # a text channel in a named encoding: say which encoding, what was written, what arrived
                 fails.append(text_failure(case, i, x, y, writes.get((x, i), []), chunks, dl, wr))
                 continue
+            if dl != wr[:len(dl)] and text and len({dt for dt, _d in writes.get((x, i), [])}) > 1:
+                sh = shared_units(writes.get((x, i), []))
+                if sh is not None and dl == sh[:len(dl)]:
+                    k = next((j for j in range(min(len(dl), len(wr))) if dl[j] != wr[j]), min(len(dl), len(wr)))
+                    fails.append(Failure(D1_SIG, f'{where}: a character written on one data type was delivered with '
+                                         f'the other (unit {k}: got {dl[k] if k < len(dl) else None}, written '
+                                         f'{wr[k] if k < len(wr) else None}): the receiver decodes all data types with '
+                                         f'ONE incremental decoder', {'case': case, 'channel': i}))
+                    continue
             if dl != wr[:len(dl)]:
                 k = next((j for j in range(min(len(dl), len(wr))) if dl[j] != wr[j]), min(len(dl), len(wr)))
                 kind = 'duplicated-or-extra' if len(dl) > len(wr) and dl[:len(wr)] == wr else 'corrupted-or-reordered'
@@ -264,7 +399,11 @@ def check_c08(case: Dict[str, Any], res: Dict[str, Any]) -> List[Failure]:
                     fails.append(Failure('window-false-reject', f'side {v}: {n} bytes rejected with {advertised - accepted} '
                                          f'bytes of advertised window left', {'case': case}))
         return fails
+    # ---- the reader's pause is honoured ---------------------------------------------------------------------
+    fails += check_pause(case, res)
     # ---- liveness -------------------------------------------------------------------------------------------
+    if res.get('dead') == 'decode':
+        fails += decode_fatal(case, res)
     if res.get('dead') and res.get('dead') not in ('decode', 'spin'):
         fails.append(Failure('protocol-error-between-honest-peers:' + str(res.get('dead')),
                              f'the connection was torn down ({res.get("dead")}) although both peers followed the '
